@@ -42,6 +42,8 @@ PROBES = ["q_mut_q", "q_after_append", "q_after_remove", "q_after_modify_element
           "nonrange_index", "block_query_hit", "alias_retired", "nan_cell", "dup_value_hit", "new_column_added",
           "empty_table", "from_query_holder", "slice_holder", "copy_holder", "viewer_built", "viewer_child_block", "viewer_append", "viewer_append_to_empty",
           "viewer_query", "viewer_query_on_child"]
+# the same check again, smaller, in interpreters started with assertions stripped (python -O / PYTHONOPTIMIZE=1)
+ENV_VARIANTS = [{"name": "python-O", "env": {"PYTHONOPTIMIZE": "1"}, "runs": {'quick': 2500, 'thorough': 25000}}]
 TIERS = {
     "quick": {"runs": 24000, "budget_s": 150, "chunk": 500, "selftest": 150, "per_run_timeout": 120},
     "thorough": {"runs": 0, "budget_s": 900, "chunk": 2000, "selftest": 600, "per_run_timeout": 120},
@@ -503,9 +505,9 @@ def execute(trace):
                 elif cols is not None:
                     carg = list(cols)
                 rows_arg = [dict(r) for r in op["rows"]]
-                if cols is None and not any(rows_arg):
+                if not cols and not any(rows_arg):
                     rows_arg = []             # rows without any key: a frame with rows but no columns is left out
-                model = model_new(rows_arg, cols) if (rows_arg or cols is not None) else T([], [])
+                model = model_new(rows_arg, cols if cols else None) if (rows_arg or cols) else T([], [])
                 dm = sut(lambda: _DM(rows_arg, columns=carg))
                 add_holder(dm, model, "new")
                 if not model.rows:
